@@ -27,7 +27,7 @@ func init() {
 		Level: "fault_enumeration",
 		Rule: "for every corpus frame and EVERY cut offset k in [0,len): the scripted reader delivers exactly the first k bytes and then ends the stream (io.EOF) or fails with a fresh error value E; " +
 			"the delivered prefix is fragmented by every schedule with at most 2 (quick) / 3 (thorough) non-default Read answers (short read, zero read, last chunk delivered together with the error). " +
-			"Every (frame, cut, kind) is repeated, with one deviation less, through eight further reader implementations over the scripted source or holding the prefix (bufio.Reader 16/4096/pre-filled, a reader of its own type with ReadByte/Peek/Discard/WriteTo, io.LimitedReader, bytes.Buffer, bytes.Reader, strings.Reader) and with four further shapes of E (wrapping io.EOF, wrapping io.ErrUnexpectedEOF, a net.Error-like value whose Timeout() and Temporary() are true, wrapping io.ErrShortWrite). " +
+			"Every (frame, cut, kind) is repeated, with one deviation less, through eight further reader implementations over the scripted source or holding the prefix (bufio.Reader 16/4096/pre-filled, a reader of its own type with ReadByte/Peek/Discard/WriteTo, io.LimitedReader, bytes.Buffer, bytes.Reader, strings.Reader) and with four further shapes of E (wrapping io.EOF, wrapping io.ErrUnexpectedEOF, a net.Error-like value whose Timeout() and Temporary() are true, wrapping io.ErrShortWrite, a slice-typed error) and with opaque errors whose text is what real transports say (EOF, unexpected EOF, use of closed network connection, i/o timeout, connection reset by peer, websocket close 1000/1006, tls: bad record MAC, context canceled) or a string constant that is new in the tree under test; a net.Conn double among the readers. Frames above 300 bytes run with one deviation less. " +
 			"Big frames (PUBLISH with 70 000, 140 000, 300 000 and 1.3 M bytes of payload, and frames sized by the integer constants of the tree under test): cuts around the header, around every power-of-two multiple of 512/1000/4096/65536 and of the mined constants counted from the frame and from the body start, x {EOF, E} x {error on its own call, error together with the last bytes} x {one delivery, 4 KiB and 64 KiB segments} x {scripted source, bufio}. " +
 			"Every frame of the valid corpus V (~2.7k frames) is cut at every offset as well, with 0 (quick) / 1 (thorough) further deviations. Required: nil packet and non-nil error; errors.Is(err,E) whenever the reader returned E; errors.Is(err,io.EOF) for k=0 with EOF. " +
 			"distinct_nontrivial = distinct (frame, k, kind, schedule) with k>0 (the fault strikes inside the frame).",
